@@ -370,6 +370,19 @@ def typed_value_key(c):
         return (t, "repr", repr(value))
 
 
+def complex_str_roundtrip_fails(value):
+    """`str(complex)` (what the printers emit) read back as an expression differs from the value in the
+    sign of a zero part: (-0+0.1j) -> +0.0 real, (1-0j) -> +0.0 imag, -2j -> -0.0 real"""
+    if not isinstance(value, (complex, numpy.complexfloating)):
+        return False
+    try:
+        with numpy.errstate(all="ignore"):
+            back = type(value)(eval(str(value), {"inf": math.inf, "nan": math.nan, "infj": complex(0, math.inf), "nanj": complex(0, math.nan)}))
+        return interp.canon(back) != interp.canon(value)
+    except Exception:  # noqa: BLE001
+        return False
+
+
 def narrow_np_constant(c):
     """numpy scalar constant whose own dtype is narrower than the type of `like` and whose shortest repr
     (`str(value)`, what the printers emit) denotes another value in the wider type"""
@@ -596,6 +609,8 @@ def run_case_(case, cfg):
         res["nnodes"] = len(d.exprs)
         res["kinds"] = sorted({e.kind for e in d.exprs})
         res["alias"] = alias_report(g)
+        res["negzero_complex_constant"] = any(
+            e.kind == "constant" and complex_str_roundtrip_fails(e.operands[0]) for e in d.exprs)
         res["narrow_np_constant"] = any(narrow_np_constant(e) for e in d.exprs if e.kind == "constant")
         res["nan_constant"] = any(e.kind == "constant" and isinstance(e.operands[0], float) and e.operands[0] != e.operands[0] for e in d.exprs)
         if cfg.get("search", True) and not res.get("warned"):
